@@ -264,6 +264,17 @@ def oracles(results):
                 yield r.case, f'negative {i} not rendered with 10 digits: {s!r}'
         elif r.impl != 'e:num':
             yield r.case, f'DEC2x({i}) out of range gave {core.show(r.impl)}'
+    # C18_output_alphabet / C18_injective on implementation outputs
+    seen = {}
+    for (b, i), r in d2b.items():
+        m = MASK[b]
+        if -m <= i < m and r.impl.startswith('s:'):
+            s = core.dec(r.impl)
+            if not (1 <= len(s) <= 10 and all(ch in ALPHA[b][:b] for ch in s)):
+                yield r.case, f'DEC2x({i}) is not 1..10 upper-case digits of base {b}: {s!r}'
+            j = seen.setdefault((b, s), i)
+            if j != i:
+                yield r.case, f'DEC2x({i}) and DEC2x({j}) give the same text {s!r} in base {b}'
     for r in results:
         c = r.case
         if c['op'] == 'b2d' and c['val'].startswith('s:') and c['val'] != 's:':
@@ -271,6 +282,18 @@ def oracles(results):
             legal = all(ch in ALPHA[c['b']] for ch in s)
             if (not legal or len(s) > 10) and r.impl != 'e:num':
                 yield c, f'x2DEC({s!r}) outside alphabet/length gave {core.show(r.impl)}'
+            if legal and len(s) <= 10:           # C18_decode_in_range
+                m = MASK[c['b']]
+                ok = r.impl.startswith('n:') and r.impl.endswith('/1') and -m <= int(core.dec(r.impl)) < m
+                if not ok:
+                    yield c, f'x2DEC({s!r}) of a legal text is not an integer of the signed range: {core.show(r.impl)}'
+        if (c['op'] == 'd2b' and 'places' in c and c['val'].startswith('n:') and c['val'].endswith('/1')
+                and r.impl.startswith('s:')):    # C18_places_roundtrip
+            i, s = int(core.dec(c['val'])), core.dec(r.impl)
+            if len(s) <= 10:
+                back = core.enc(pyc.lib_call(FN_B2D[c['b']], s))
+                if back != f'n:{i}/1':
+                    yield c, f'x2DEC(DEC2x({i}, places)) = {core.show(back)} via {s!r}'
 
 
 def finding_key(c, impl_out, model_out):
